@@ -1,6 +1,7 @@
 package rules
 
 import (
+	"go/token"
 	"strings"
 
 	"golang.org/x/tools/go/ssa"
@@ -108,6 +109,47 @@ func checkPopulate(p *engine.Prog, r *engine.Report) {
 				probs = append(probs, "CheckTargetAddress is not applied to the completed address")
 			}
 		}
+		// the job's defaults (job, metrics path, scheme) are applied before relabeling exactly when the discovered value
+		// is empty: an empty discovered label counts as absent, as in Prometheus' own populateLabels
+		{
+			var dprobs []string
+			nDef := 0
+			for _, in := range allInstrs(fn) {
+				set, ok := in.(*ssa.Call)
+				if !ok || !engine.CalleeIs(set.Common(), "github.com/prometheus/prometheus/model/labels", "Builder", "Set") || engine.InstrDominates(process, set) || !blockReaches(set.Block(), process.Block()) {
+					continue
+				}
+				name := fi.T(set.Call.Args[1]).S
+				if strings.Contains(name, `"__param_"`) {
+					continue
+				}
+				nDef++
+				okG := false
+				sawGet := false
+				for _, in2 := range allInstrs(fn) {
+					get, ok := in2.(*ssa.Call)
+					if !ok || !engine.CalleeIs(get.Common(), "github.com/prometheus/prometheus/model/labels", "Labels", "Get") || len(get.Call.Args) != 2 || fi.T(get.Call.Args[1]).S != name {
+						continue
+					}
+					sawGet = true
+					if ok, _ := fi.Implies(set.Block(), engine.EqAtom(fi.T(get).S, `""`)); ok {
+						okG = true
+					}
+				}
+				if !okG {
+					why := "is not guarded by 'the discovered value is empty'"
+					if !sawGet {
+						why = "is decided without reading the discovered value (an empty value must count as absent)"
+					}
+					dprobs = append(dprobs, "the default for "+short(name)+" at "+p.Rel(set.Pos())+" "+why)
+				}
+			}
+			if nDef == 0 {
+				dprobs = append(dprobs, "no job default is set before relabeling")
+			}
+			r.Check(len(dprobs) == 0, "R2.6-completed-address", "job defaults in "+engine.FuncName(fn), engine.FuncName(fn)+" ("+p.Rel(fn.Pos())+")",
+				"job, metrics path and scheme defaults are set before relabeling exactly under 'discovered value == \"\"'", strings.Join(dprobs, "; "))
+		}
 		r.Check(len(probs) == 0, "R2.6-completed-address", "label population in "+engine.FuncName(fn), engine.FuncName(fn)+" ("+p.Rel(fn.Pos())+")",
 			"__address__ and the instance default are the port-completed address of the relabelled set; instance only defaulted when empty; address check on the completed value", strings.Join(probs, "; "))
 	}
@@ -202,5 +244,87 @@ func checkFreshTranslation(p *engine.Prog, r *engine.Report) {
 	}
 	if n == 0 {
 		r.Add("R2.7-fresh-translation", "translation", pkgDisc, "a method that translates target groups and updates the active targets", "none found", engine.Undecided)
+	}
+}
+
+// checkParamFilter is R2.8: the labels that populateLabels derives from the job's params are removed again before a
+// target is shipped (the shard's Prometheus adds them itself from the generated job). A label is matched against the
+// params by its full name "__param_<key>", or by its name with exactly that prefix removed; a name mangled in any other
+// way (cut-set trimming, replacing) drops labels the job does not define or keeps ones it does.
+func checkParamFilter(p *engine.Prog, r *engine.Report) {
+	n := 0
+	for _, fn := range p.Funcs {
+		if !engine.InPkg(fn, pkgDisc) || fn.Parent() != nil || len(fn.Params) != 2 || fn.Signature.Results().Len() != 1 {
+			continue
+		}
+		if !strings.HasSuffix(fn.Params[0].Type().String(), "labels.Labels") || fn.Params[1].Type().String() != "net/url.Values" || !strings.HasSuffix(fn.Signature.Results().At(0).Type().String(), "labels.Labels") {
+			continue
+		}
+		n++
+		fi := p.Info(fn)
+		param := fn.Params[1]
+		var probs []string
+		var how []string
+		isKey := func(t string) bool {
+			// "__param_" + <range key of param>
+			for _, in := range allInstrs(fn) {
+				if rg, ok := in.(*ssa.Range); ok && rg.X == ssa.Value(param) && t == `("__param_" + rk:`+rg.Name()+`)` {
+					return true
+				}
+			}
+			return false
+		}
+		for _, in := range allInstrs(fn) {
+			switch x := in.(type) {
+			case *ssa.Call:
+				callee := x.Call.StaticCallee()
+				if callee == nil || callee.Name() != "FindString" || len(x.Call.Args) != 2 {
+					continue
+				}
+				if !strings.HasSuffix(fi.T(x.Call.Args[0]).S, ".Name") {
+					probs = append(probs, "the searched value is "+short(fi.T(x.Call.Args[0]).S)+", not the label's name")
+				}
+				elems := collectedElems(x.Call.Args[1])
+				if len(elems) == 0 {
+					probs = append(probs, "the list of names searched is not built from the job's params in this function")
+				}
+				for _, e := range elems {
+					if !isKey(fi.T(e).S) {
+						probs = append(probs, "the names searched are "+short(fi.T(e).S)+", not \"__param_\" + key for each key of the params")
+					}
+				}
+				how = append(how, "full names searched in the list of \"__param_\"+key")
+			case *ssa.Lookup:
+				if x.X != ssa.Value(param) {
+					continue
+				}
+				kt := fi.T(x.Index).S
+				okKey := false
+				if kc, ok := x.Index.(*ssa.Call); ok && engine.CalleeIs(kc.Common(), "strings", "", "TrimPrefix") && len(kc.Call.Args) == 2 {
+					if pv, ok := constString(kc.Call.Args[1]); ok && pv == "__param_" && strings.HasSuffix(fi.T(kc.Call.Args[0]).S, ".Name") {
+						okKey = true
+					}
+				}
+				if sl, ok := x.Index.(*ssa.Slice); ok && sl.High == nil && sl.Low != nil && fi.T(sl.Low).IsConst() && fi.T(sl.Low).K == int64(len("__param_")) && strings.HasSuffix(fi.T(sl.X).S, ".Name") {
+					okKey = true
+				}
+				if !okKey {
+					probs = append(probs, "the params are looked up by "+short(kt)+", not by the label's name with exactly the prefix \"__param_\" removed")
+				}
+				how = append(how, "params looked up by the name without its prefix")
+			case *ssa.BinOp:
+				if x.Op == token.EQL && (isKey(fi.T(x.X).S) && strings.HasSuffix(fi.T(x.Y).S, ".Name") || isKey(fi.T(x.Y).S) && strings.HasSuffix(fi.T(x.X).S, ".Name")) {
+					how = append(how, "full name compared with \"__param_\"+key")
+				}
+			}
+		}
+		if len(how) == 0 && len(probs) == 0 {
+			r.Add("R2.8-param-labels", "filter "+engine.FuncName(fn), engine.FuncName(fn)+" ("+p.Rel(fn.Pos())+")", "labels named __param_<key of the job's params> are removed, and only those", "the way label names are matched against the params is not recognised", engine.Undecided)
+			continue
+		}
+		r.Check(len(probs) == 0, "R2.8-param-labels", "filter "+engine.FuncName(fn), engine.FuncName(fn)+" ("+p.Rel(fn.Pos())+")", "labels named __param_<key of the job's params> are removed, and only those", strings.Join(append(probs, how...), "; "))
+	}
+	if n == 0 {
+		r.Add("R2.8-param-labels", "filter", pkgDisc, "a function (labels, params) -> labels in pkg/discovery", "none found", engine.Undecided)
 	}
 }
